@@ -17,6 +17,8 @@ import Mathlib.NumberTheory.LucasPrimality
 import Mathlib.Data.Nat.Prime.Defs
 import Mathlib.Data.List.GetD
 import Mathlib.Algebra.Polynomial.Degree.Domain
+import Mathlib.FieldTheory.Finite.Extension
+import Mathlib.RingTheory.Polynomial.UniqueFactorization
 import Mathlib.Tactic.Ring
 import Mathlib.Tactic.Linarith
 import Algobra.Certs.Checker
@@ -328,6 +330,63 @@ theorem ev_negf (hp : (p : R) = 0) (hp0 : 0 < p) (l : List ℕ) :
     simp only [List.map_cons, ev, ih, cast_mod_eq hp]
     rw [Nat.cast_sub (Nat.mod_lt c hp0).le, cast_mod_eq hp, hp]; ring
 
+theorem powL_spec (hp : (p : R) = 0) {n : ℕ} {negf : List ℕ} (hn : 1 ≤ n)
+    (hrel : α ^ n = ev α negf) (hnf : negf.length = n) {a : List ℕ} (ha : a.length = n) :
+    ∀ e, (powL p n negf a e).length = n ∧ ev α (powL p n negf a e) = ev α a ^ e := by
+  intro e
+  induction e using Nat.strong_induction_on with
+  | _ e ih =>
+    rw [powL]
+    split
+    · rename_i h; subst h
+      exact ⟨length_oneL hn, by simp [ev_oneL]⟩
+    · split
+      · rename_i h1; subst h1
+        exact ⟨ha, by simp⟩
+      · rename_i h h1
+        obtain ⟨hl, hv⟩ := ih (e / 2) (by omega)
+        have hl2 := fun a => length_mulL (p := p) hnf a _ hl
+        have hv2 := fun a => ev_mulL hp hrel hnf a _ hl
+        have he : e = e / 2 + e / 2 + e % 2 := by omega
+        simp only
+        split
+        · rename_i h2
+          refine ⟨length_mulL hnf _ _ ha, ?_⟩
+          rw [ev_mulL hp hrel hnf _ _ ha, hv2, hv]
+          conv_rhs => rw [he, h2, pow_add, pow_add, pow_one]
+        · rename_i h2
+          have h0 : e % 2 = 0 := by omega
+          refine ⟨hl2 _, ?_⟩
+          rw [hv2, hv]
+          conv_rhs => rw [he, h0, pow_add, pow_add, pow_zero, mul_one]
+
+theorem length_xL {n : ℕ} (hn : 2 ≤ n) : (xL n).length = n := by
+  simp [xL]; omega
+
+theorem ev_xL (n : ℕ) : ev α (xL n) = α := by simp [xL, ev, ev_replicate_zero]
+
+theorem length_negxL {n : ℕ} (hn : 2 ≤ n) : (negxL p n).length = n := by
+  simp [negxL]; omega
+
+theorem ev_negxL (hp : (p : R) = 0) (hp0 : 0 < p) (n : ℕ) : ev α (negxL p n) = -α := by
+  simp only [negxL, ev, ev_replicate_zero]
+  rw [Nat.cast_sub hp0, hp]; simp
+
+theorem ev_of_isZeroL (hp : (p : R) = 0) (l : List ℕ) (h : isZeroL p l = true) : ev α l = 0 :=
+  ev_eq_zero_of_all hp l h
+
+theorem frob_spec (hp : (p : R) = 0) {n : ℕ} {negf : List ℕ} (hn : 2 ≤ n)
+    (hrel : α ^ n = ev α negf) (hnf : negf.length = n) :
+    ∀ k, ((fun y => powL p n negf y p)^[k] (xL n)).length = n ∧
+      ev α ((fun y => powL p n negf y p)^[k] (xL n)) = α ^ p ^ k := by
+  intro k
+  induction k with
+  | zero => exact ⟨length_xL hn, by simp [ev_xL]⟩
+  | succ k ih =>
+    rw [Function.iterate_succ_apply']
+    obtain ⟨h1, h2⟩ := powL_spec hp (by omega) hrel hnf ih.1 p
+    exact ⟨h1, by rw [h2, ih.2, ← pow_mul, ← pow_succ]⟩
+
 end Ev
 
 /-! ## the polynomial of a coefficient list -/
@@ -418,6 +477,18 @@ theorem isOneL_of_ev_eq_one {p n : ℕ} [Fact p.Prime] {f : (ZMod p)[X]} (hf : f
         ZMod.natCast_eq_zero_iff] at this
       exact Nat.mod_eq_zero_of_dvd this
 
+/-- the defining relation `x^n = -(lower part)` in `F_p[X]/(f)` -/
+theorem root_pow_eq {p n : ℕ} {cs : List ℕ} (hp : p.Prime) (hlen : cs.length = n + 1)
+    (hlast : cs.getLast? = some 1) :
+    AdjoinRoot.root (toPolyZMod p cs) ^ n =
+      ev (AdjoinRoot.root (toPolyZMod p cs)) (negfOf p n cs) := by
+  have hp0 := natCast_self_adjoinRoot (toPolyZMod p cs)
+  have h3 : ev (AdjoinRoot.root (toPolyZMod p cs)) cs = 0 := by
+    rw [ev_root_eq_mk, AdjoinRoot.mk_self]
+  rw [ev_eq_take_add _ hlen hlast] at h3
+  rw [negfOf, ev_negf hp0 hp.pos]
+  linear_combination h3
+
 /-- **soundness of the primitivity check** -/
 theorem primitiveOK_sound (tab : Array PLine)
     (htab : ∀ i, i < tab.size → (primeAt tab i).Prime)
@@ -433,13 +504,7 @@ theorem primitiveOK_sound (tab : Array PLine)
   have hp0 := natCast_self_adjoinRoot (toPolyZMod p cs)
   have hnf : (negfOf p n cs).length = n := by
     simp only [negfOf, List.length_map, List.length_take, hlen]; omega
-  have hrel : AdjoinRoot.root (toPolyZMod p cs) ^ n =
-      ev (AdjoinRoot.root (toPolyZMod p cs)) (negfOf p n cs) := by
-    have h3 : ev (AdjoinRoot.root (toPolyZMod p cs)) cs = 0 := by
-      rw [ev_root_eq_mk, AdjoinRoot.mk_self]
-    rw [ev_eq_take_add _ hlen hlast] at h3
-    rw [negfOf, ev_negf hp0 hp.pos]
-    linear_combination h3
+  have hrel := root_pow_eq hp hlen hlast
   have hspec := powX_spec hp0 hn1 hrel hnf
   simp only [primitiveOK, Bool.and_eq_true, beq_iff_eq, List.all_eq_true, decide_eq_true_eq,
     Bool.not_eq_true'] at h
@@ -457,6 +522,113 @@ theorem primitiveOK_sound (tab : Array PLine)
     have := isOneL_of_ev_eq_one hmonic hdeg hn1 (hspec _).1 hc
     rw [(hall jk hjk).2] at this
     exact Bool.false_ne_true this
+
+/-! ## D. Rabin's test -/
+
+theorem iterList_getElem? (step : List ℕ → List ℕ) :
+    ∀ (k : ℕ) (y : List ℕ) (i : ℕ), i ≤ k → (iterList step k y)[i]? = some (step^[i] y)
+  | 0, y, 0, _ => rfl
+  | 0, y, i + 1, h => by omega
+  | k + 1, y, 0, _ => rfl
+  | k + 1, y, i + 1, h => by
+    simp [iterList, iterList_getElem? step k (step y) i (by omega)]
+
+theorem isPrimeNaive_complete {r : ℕ} (hr : r.Prime) : isPrimeNaive r = true := by
+  simp only [isPrimeNaive, Bool.and_eq_true, decide_eq_true_eq, List.all_eq_true, List.mem_range,
+    Bool.or_eq_true, bne_iff_ne, ne_eq]
+  refine ⟨hr.two_le, fun s hs => ?_⟩
+  by_cases h2 : s < 2
+  · exact Or.inl h2
+  · right
+    intro hmod
+    rcases (Nat.dvd_prime hr).mp (Nat.dvd_of_mod_eq_zero hmod) with h | h <;> omega
+
+/-- Rabin's irreducibility criterion over `ZMod p` -/
+theorem rabin_irreducible {p n : ℕ} [Fact p.Prime] (f : (ZMod p)[X])
+    (hdeg : f.natDegree = n) (hn : 1 ≤ n)
+    (h1 : f ∣ X ^ p ^ n - X)
+    (h2 : ∀ r, r.Prime → r ∣ n → IsCoprime f (X ^ p ^ (n / r) - X)) : Irreducible f := by
+  have hf0 : f ≠ 0 := by intro h; rw [h] at hdeg; simp at hdeg; omega
+  obtain ⟨g, hg, hgf⟩ := exists_irreducible_of_natDegree_pos (f := f) (by omega)
+  have hcard : Nat.card (ZMod p) = p := Nat.card_zmod p
+  have hd : g.natDegree ∣ n := by
+    rw [hg.natDegree_dvd_iff_dvd_X_pow_card_pow_sub_X, hcard]
+    exact dvd_trans hgf h1
+  obtain ⟨m, hm⟩ := hd
+  have hgpos : 0 < g.natDegree := hg.natDegree_pos
+  by_cases hm1 : m = 1
+  · obtain ⟨h, rfl⟩ := hgf
+    have hh0 : h ≠ 0 := right_ne_zero_of_mul hf0
+    have hg0 : g ≠ 0 := hg.ne_zero
+    rw [natDegree_mul hg0 hh0, hm, hm1, mul_one] at hdeg
+    have hh : h.natDegree = 0 := by omega
+    have hu : IsUnit h := by
+      rw [eq_C_of_natDegree_eq_zero hh] at hh0 ⊢
+      exact isUnit_C.mpr (isUnit_iff_ne_zero.mpr (by simpa using hh0))
+    exact (irreducible_mul_isUnit hu).mpr hg
+  · exfalso
+    have hm0 : m ≠ 0 := by rintro rfl; omega
+    obtain ⟨r, hr, hrm⟩ := Nat.exists_prime_and_dvd hm1
+    obtain ⟨m', rfl⟩ := hrm
+    have hrn : r ∣ n := ⟨g.natDegree * m', by rw [hm]; ring⟩
+    have hnr : n / r = g.natDegree * m' := by
+      rw [hm, show g.natDegree * (r * m') = r * (g.natDegree * m') by ring,
+        Nat.mul_div_cancel_left _ hr.pos]
+    have hdvd : g ∣ X ^ p ^ (n / r) - X := by
+      have := (hg.natDegree_dvd_iff_dvd_X_pow_card_pow_sub_X (n := n / r)).mp ⟨m', hnr⟩
+      rwa [hcard] at this
+    have := (h2 r hr hrn).isUnit_of_dvd' hgf hdvd
+    exact hg.not_isUnit this
+
+/-- **soundness of the Rabin check** -/
+theorem rabinOK_sound (e : Entry) (cert : List (ℕ × List ℕ)) (hs : shapeOK e = true)
+    (hp : e.1.Prime) (h : rabinOK e cert = true) : Irreducible (toPolyZMod e.1 e.2.2) := by
+  obtain ⟨p, n, cs⟩ := e
+  simp only at hs hp h ⊢
+  have := Fact.mk hp
+  obtain ⟨hp2, hn1, hlen, -, hlast⟩ := (shapeOK_iff _).mp hs
+  simp only at hp2 hn1 hlen hlast
+  obtain ⟨hmonic, hdeg⟩ := toPolyZMod_monic_natDegree (p := p) hlen hlast
+  have hp0 := natCast_self_adjoinRoot (toPolyZMod p cs)
+  have hnf : (negfOf p n cs).length = n := by
+    simp only [negfOf, List.length_map, List.length_take, hlen]; omega
+  have hrel := root_pow_eq hp hlen hlast
+  have hfr : ∀ i, i ≤ n →
+      (iterList (fun y => powL p n (negfOf p n cs) y p) n (xL n)).toArray[i]? =
+        some ((fun y => powL p n (negfOf p n cs) y p)^[i] (xL n)) := by
+    intro i hi
+    rw [List.getElem?_toArray, iterList_getElem? _ _ _ _ hi]
+  simp only [rabinOK, Bool.and_eq_true, decide_eq_true_eq, hfr n le_rfl, List.all_eq_true,
+    List.mem_range] at h
+  obtain ⟨⟨hn2, hfrob⟩, hall⟩ := h
+  have hspec := frob_spec hp0 hn2 hrel hnf
+  have hmk : ∀ k, AdjoinRoot.mk (toPolyZMod p cs) (X ^ p ^ k - X) =
+      AdjoinRoot.root (toPolyZMod p cs) ^ p ^ k - AdjoinRoot.root (toPolyZMod p cs) := by
+    intro k; rw [map_sub, map_pow, AdjoinRoot.mk_X]
+  apply rabin_irreducible _ hdeg hn1
+  · rw [← AdjoinRoot.mk_eq_zero, hmk, ← (hspec n).2]
+    have := ev_of_isZeroL (α := AdjoinRoot.root (toPolyZMod p cs)) hp0 _ hfrob
+    rw [ev_addL hp0, ev_negxL hp0 hp.pos] at this
+    linear_combination this
+  · intro r hr hrn
+    have hrle : r ≤ n := Nat.le_of_dvd (by omega) hrn
+    have h1 := hall r (by omega)
+    rw [isPrimeNaive_complete hr, Nat.mod_eq_zero_of_dvd hrn] at h1
+    simp only [beq_self_eq_true, Bool.and_self, Bool.not_true, Bool.false_or,
+      hfr (n / r) (Nat.div_le_self n r)] at h1
+    cases hc : cert.lookup r with
+    | none => simp [hc] at h1
+    | some v =>
+      simp only [hc] at h1
+      have h3 := ev_of_isOneL (α := AdjoinRoot.root (toPolyZMod p cs)) hp0 _ h1
+      have hlen2 : (addL p ((fun y => powL p n (negfOf p n cs) y p)^[n / r] (xL n))
+          (negxL p n)).length = n := by
+        rw [length_addL, (hspec (n / r)).1, length_negxL hn2, max_self]
+      rw [ev_mulL hp0 hrel hnf _ _ hlen2, ev_addL hp0, ev_negxL hp0 hp.pos, (hspec (n / r)).2,
+        ← sub_eq_add_neg, ← hmk, ev_root_eq_mk, ← map_mul,
+        ← map_one (AdjoinRoot.mk (toPolyZMod p cs)), AdjoinRoot.mk_eq_mk] at h3
+      obtain ⟨w, hw⟩ := h3
+      exact ⟨-w, toPolyZMod p v, by linear_combination hw⟩
 
 /-! ## a root of multiplicative order `p^n - 1` forces irreducibility -/
 
@@ -527,17 +699,23 @@ def EntryGood (e : Entry) : Prop :=
       e.2.2.getLast? = some 1) ∧
     e.1.Prime ∧
     (e.1 ^ e.2.1 < 2 ^ 64 →
-      orderOf (AdjoinRoot.root (toPolyZMod e.1 e.2.2)) = e.1 ^ e.2.1 - 1)
+      orderOf (AdjoinRoot.root (toPolyZMod e.1 e.2.2)) = e.1 ^ e.2.1 - 1) ∧
+    (2 ^ 64 ≤ e.1 ^ e.2.1 → e.2.1 ≤ rabinMaxDeg → Irreducible (toPolyZMod e.1 e.2.2))
 
-theorem entryOK_sound (tab : Array PLine) (htab : tabOK tab = true) (e : Entry)
-    (cert : List (ℕ × ℕ)) (h : entryOK tab e cert = true) : EntryGood e := by
-  simp only [entryOK, Bool.and_eq_true, Bool.or_eq_true, decide_eq_true_eq] at h
-  obtain ⟨⟨hs, hp⟩, hprim⟩ := h
+theorem entryOK2_sound (tab : Array PLine) (htab : tabOK tab = true) (e : Entry)
+    (cert : List (ℕ × ℕ)) (rcert : List (ℕ × List ℕ)) (h : entryOK2 tab e cert rcert = true) :
+    EntryGood e := by
+  simp only [entryOK2, entryOK, Bool.and_eq_true, Bool.or_eq_true, decide_eq_true_eq] at h
+  obtain ⟨⟨⟨hs, hp⟩, hprim⟩, hrab⟩ := h
   have hp' := isPrimeTD_sound hp
-  refine ⟨(shapeOK_iff e).mp hs, hp', fun hw => ?_⟩
-  rcases hprim with h1 | h1
-  · omega
-  · exact primitiveOK_sound tab (tabOK_sound tab htab) e cert hs hp' h1
+  refine ⟨(shapeOK_iff e).mp hs, hp', fun hw => ?_, fun hw hd => ?_⟩
+  · rcases hprim with h1 | h1
+    · omega
+    · exact primitiveOK_sound tab (tabOK_sound tab htab) e cert hs hp' h1
+  · rcases hrab with (h1 | h1) | h1
+    · omega
+    · omega
+    · exact rabinOK_sound e rcert hs hp' h1
 
 theorem stride_sound {m : ℕ} (hm : 0 < m) {f : ℕ → Bool} {len : ℕ}
     (h : ∀ k, k < m → stride m k f len = true) : ∀ i, i < len → f i = true := by
@@ -552,17 +730,21 @@ theorem dbArr_getElem? {i : ℕ} (hi : i < db.length) : dbArr[i]? = some db[i] :
   simp [dbArr, hi]
 
 theorem entryGood_of_sweep {tab : Array PLine} {certs : Array (List (ℕ × ℕ))}
-    (htab : tabOK tab = true) (h : ∀ i, i < db.length → entryOKAt tab certs i = true) :
+    {rcerts : Array (List (ℕ × List ℕ))}
+    (htab : tabOK tab = true) (h : ∀ i, i < db.length → entryOK2At tab certs rcerts i = true) :
     ∀ e ∈ db, EntryGood e := by
   intro e he
   obtain ⟨i, hi, rfl⟩ := List.mem_iff_getElem.mp he
   have h1 := h i hi
-  simp only [entryOKAt, dbArr_getElem? hi] at h1
+  simp only [entryOK2At, dbArr_getElem? hi] at h1
   cases hc : certs[i]? with
   | none => simp [hc] at h1
   | some c =>
-    simp only [hc] at h1
-    exact entryOK_sound tab htab _ c h1
+    cases hr : rcerts[i]? with
+    | none => simp [hc, hr] at h1
+    | some rc =>
+      simp only [hc, hr] at h1
+      exact entryOK2_sound tab htab _ c rc h1
 
 theorem lookup_of_sweep (h : ∀ i, i < db.length → lookupOKAt i = true) :
     ∀ e ∈ db, Conway.lookupIn Gen.dbText e.1 e.2.1 = .ok e.2.2 := by
